@@ -11,7 +11,7 @@ import random
 import numpy as np
 import sympy
 
-from ..simkit.core import call, judge
+from ..simkit.core import call, judge, clear_library_caches
 from ..simkit.store import BUFFER_SIZES, LOAD_FAULTS, SAVE_FAULTS, Kind, Store
 
 PID = "C12"
@@ -121,6 +121,7 @@ def bitrev(i, n):
 
 class World:
     PID = PID
+    WATCHDOG_S = 120  # a run of this world takes well under a second; beyond this it is a hang
     TIERS = {
         "quick": {"runs": 4000, "budget_s": 45, "determinism_seeds": 8, "chunk": 100},
         "thorough": {"runs": 400000, "budget_s": 800, "determinism_seeds": 200, "chunk": 400},
@@ -325,9 +326,8 @@ class World:
         from orquestra.quantum import utils as umod
 
         st = {"pool": [], "wfmod": wfmod, "pending_reject": set(), "accepted": 0}
-        wfmod._get_ordering.cache_clear()
-        umod.bitstring_to_tuple.cache_clear()
-        umod.tuple_to_bitstring.cache_clear()
+        clear_library_caches()
+        clear_library_caches()
         store = Store(ctx, plan["config"].get("fs_buffer", 4096))
         W = wfmod.Wavefunction
 
@@ -739,7 +739,7 @@ class World:
         ctx.log("read", "ok", free=sorted(map(str, m.free())))
 
     def _do_clear_cache(self, ctx, st, step, a):
-        st["wfmod"]._get_ordering.cache_clear()
+        clear_library_caches()
         ctx.log("clear_cache", "ok")
 
     def _do_flip(self, ctx, st, step, a):
@@ -750,7 +750,7 @@ class World:
         wfmod = st["wfmod"]
         obj, m = ent["obj"], ent["m"]
         if a["clear"] or ctx.rng(step).random() < ctx.config.get("cache_clear", 0):
-            wfmod._get_ordering.cache_clear()
+            clear_library_caches()
             ctx.probe("flip-cold")
         else:
             ctx.probe("flip-warm")
